@@ -332,10 +332,22 @@ impl ModelG {
                 let p = need!(0, *a);
                 self.set(1, *dst, p.dbl(), &mut o);
             }
-            Step::Rand { g, dst, rng } => match model_random(*g, &rng.b.0) {
-                Some(p) => self.set(*g, *dst, p, &mut o),
-                None => return Out::Skip,
-            },
+            Step::Rand { g, dst, rng } => {
+                // How a random constructor turns RNG output into a point is not part of any property: the value is not
+                // decided (it is logged, so configurations are compared on it). What is decided: a valid representation,
+                // the same point for the same RNG stream, and (Edwards) not the identity. The handle dies.
+                if model_random(*g, &rng.b.0).is_none() {
+                    return Out::Skip;
+                }
+                o.any("enc");
+                if *g == 0 {
+                    o.any("aff");
+                }
+                o.f("repr_ok", true);
+                o.f("deterministic", true);
+                let f = self.file(*g);
+                f[*dst as usize % NREG] = None;
+            }
             Step::Cofac { dst, a, via } => {
                 let p = need!(0, *a);
                 match via {
@@ -1103,10 +1115,17 @@ impl RealG {
                     return Out::Skip;
                 }
                 let mut r = crate::env::SimRng::new(&rng.b.0);
+                let mut r2 = crate::env::SimRng::new(&rng.b.0);
                 if *g == 0 {
-                    set_e!(*dst, <EdwardsPoint as Group>::random(&mut r));
+                    let p = <EdwardsPoint as Group>::random(&mut r);
+                    let p2 = <EdwardsPoint as Group>::random(&mut r2);
+                    set_e!(*dst, p);
+                    o.f("deterministic", p.compress() == p2.compress() && !IsIdentity::is_identity(&p));
                 } else {
-                    set_r!(*dst, RistrettoPoint::random(&mut r));
+                    let p = RistrettoPoint::random(&mut r);
+                    let p2 = RistrettoPoint::random(&mut r2);
+                    set_r!(*dst, p);
+                    o.f("deterministic", p.compress() == p2.compress());
                 }
             }
             Step::Cofac { dst, a, via } => {
